@@ -347,3 +347,22 @@ Definition gnutar_entry (full : bool) (e0 : entry) : ewrite :=
   end.
 
 Definition tar_trailer : list Z := zeros 1024.
+
+(* ------------------------------------------------------------------ reading strings back *)
+(* archive_strncpy / strnlen: the bytes of a fixed-size field up to its first NUL *)
+Fixpoint cstr (l : list Z) : list Z :=
+  match l with
+  | [] => []
+  | c :: t => if c =? 0 then [] else c :: cstr t
+  end.
+Definition no_nul (l : list Z) : Prop := Forall (fun c => c <> 0) l.
+
+(* header_ustar: prefix, a '/' unless the prefix already ends with one, name *)
+Definition ustar_join (prefix_field name_field : list Z) : list Z :=
+  match prefix_field with
+  | [] => cstr name_field
+  | c :: _ =>
+      if c =? 0 then cstr name_field
+      else let p := cstr prefix_field in
+           (if last_byte p =? slash then p else p ++ [slash]) ++ cstr name_field
+  end.
